@@ -3,7 +3,7 @@
 //
 // Registers 0..3 are plain ParameterLists, registers 4..5 are the lists owned by two
 // AbstractParametrizable objects (namespace prefix + fireParameterChanged recorder).
-// Values and bounds travel as integers meaning quarters (q/4), constraints as
+// Values and bounds travel as integers meaning quarters (q/4; `q'` = q/4 + 2^-30), constraints as
 // `c:<inclLo>:<lo>:<hi>:<inclHi>` (`-inf`/`+inf` for infinite bounds) or `-`.
 // Answer: `<result> ; <fired list or -> ; <reg0> ; ... ; <reg5>` where a list is printed as
 // `name,value,constraint,obj` entries; `obj` is a stable number given to each Parameter
@@ -30,6 +30,23 @@ struct TestAP : public AbstractParametrizable {
     for (size_t i = 0; i < pl.size(); ++i) firedList.push_back(pl.getParameter(i));
   }
   ParameterList& params() { return getParameters_(); }
+  // the protected forwarders (AbstractParametrizable.h:111-157), made callable
+  void xAddParameter(Parameter* p) { addParameter_(p); }
+  void xAddParameters(const ParameterList& pl) { addParameters_(pl); }
+  void xShareParameter(const std::shared_ptr<Parameter>& p) { shareParameter_(p); }
+  void xShareParameters(const ParameterList& pl) { shareParameters_(pl); }
+  void xIncludeParameters(const ParameterList& pl) { includeParameters_(pl); }
+  void xDeleteParameter(size_t i) { deleteParameter_(i); }
+  void xDeleteParameter(std::string& n) { deleteParameter_(n); }
+  void xDeleteParameters(const std::vector<std::string>& ns) { deleteParameters_(ns); }
+  void xResetParameters() { resetParameters_(); }
+  Parameter& xGetParameter(const std::string& n) { return getParameter_(n); }
+  Parameter& xGetParameterNs(const std::string& n) { return getParameterWithNamespace_(n); }
+  const Parameter& xGetParameterNsC(const std::string& n) const { return getParameterWithNamespace_(n); }
+  Parameter& xGetParameter(size_t i) { return getParameter_(i); }
+  const Parameter& xGetParameterC(size_t i) const { return getParameter_(i); }
+  const std::shared_ptr<Parameter>& xGetParameterPtrC(size_t i) const { return AbstractParametrizable::getParameter(i); }
+  std::shared_ptr<Parameter>& xGetParameterPtr(size_t i) { return AbstractParametrizable::getParameter(i); }
 };
 
 struct World {
@@ -57,15 +74,20 @@ struct World {
   }
 };
 
+static const double NUDGE = 1.0 / 1073741824.0;   // 2^-30
 static std::string quarters(double v) {
   if (std::isinf(v)) return v < 0 ? "-inf" : "+inf";
   double x = v * 4; long long n = std::llround(x);
-  if (static_cast<double>(n) != x) return "x" + doubleToHex(v);
-  return std::to_string(n);
+  if (static_cast<double>(n) == x) return std::to_string(n);
+  // a nudged grid value n/4 + 2^-30 is printed as n'
+  double y = (v - NUDGE) * 4; long long m = std::llround(y);
+  if (static_cast<double>(m) == y) return std::to_string(m) + "'";
+  return "x" + doubleToHex(v);
 }
 static double fromQuarters(const std::string& s) {
   if (s == "-inf") return -INFINITY;
   if (s == "+inf") return INFINITY;
+  if (!s.empty() && s.back() == '\'') return static_cast<double>(toI(s.substr(0, s.size() - 1))) / 4.0 + NUDGE;
   return static_cast<double>(toI(s)) / 4.0;
 }
 static std::vector<std::string> split(const std::string& s, char sep) {
@@ -127,6 +149,23 @@ static std::string exec(World& w, const Toks& t, TestAP*& owner) {
   if (o == "share") { w.L(k).shareParameter(w.L(toU(t[2])).getParameter(name(t[3]))); return "ok"; }
   if (o == "shareall") { w.L(k).shareParameters(w.L(toU(t[2]))); return "ok"; }
   if (o == "include") { w.L(k).includeParameters(w.L(toU(t[2]))); return "ok"; }
+  if (o == "at") {
+    // operator[] (const / non-const) and getParameter(i) (const / non-const): no range check in the
+    // library, so an out-of-range index is not executed
+    size_t i = toU(t[2]);
+    ParameterList& l = w.L(k); const ParameterList& cl = l;
+    if (i >= l.size()) return "ub";
+    std::shared_ptr<Parameter>& sp = l.getParameter(i);
+    if (&l[i] != sp.get() || &cl[i] != sp.get() || cl.getParameter(i).get() != sp.get()) return "overloads-disagree";
+    return "obj " + entry(w, sp);
+  }
+  if (o == "param") {
+    ParameterList& l = w.L(k); const ParameterList& cl = l;
+    std::shared_ptr<Parameter>& sp = l.getParameter(name(t[2]));
+    if (&l.parameter(name(t[2])) != sp.get() || &cl.parameter(name(t[2])) != sp.get()
+        || cl.getParameter(name(t[2])).get() != sp.get()) return "overloads-disagree";
+    return "obj " + entry(w, sp);
+  }
   if (o == "setp") { Parameter p(name(t[3]), fromQuarters(t[4]), parseCon(t[5])); w.L(k).setParameter(toU(t[2]), p); return "ok"; }
   if (o == "setv") { w.L(k).setParameterValue(name(t[2]), fromQuarters(t[3])); return "ok"; }
   if (o == "setallv") { w.L(k).setAllParametersValues(w.L(toU(t[2]))); return "ok"; }
@@ -160,6 +199,12 @@ static std::string exec(World& w, const Toks& t, TestAP*& owner) {
     else w.reg[j].reset(new ParameterList(src));
     return "ok";
   }
+  if (o == "clone") {
+    size_t j = toU(t[2]);
+    if (j >= NPLAIN) return "bad-op";
+    w.reg[j].reset(w.L(k).clone());
+    return "ok";
+  }
   if (o == "common") {
     size_t j = toU(t[2]), m = toU(t[3]);
     if (m >= NPLAIN) return "bad-op";
@@ -178,6 +223,57 @@ static std::string exec(World& w, const Toks& t, TestAP*& owner) {
   if (o == "ap.setvs") { owner = &w.A(k); owner->setParametersValues(w.L(toU(t[2]))); return "ok"; }
   if (o == "ap.matchvs") { owner = &w.A(k); bool b = owner->matchParametersValues(w.L(toU(t[2]))); return std::string("flag ") + (b ? "1" : "0"); }
   if (o == "ap.ns") { owner = &w.A(k); owner->setNamespace(name(t[2])); return "ok"; }
+  // ---- the owner's read routes through the namespace and its protected forwarders
+  if (o == "ap.addp") {
+    Parameter* p = new Parameter(name(t[2]), fromQuarters(t[3]), parseCon(t[4]));
+    try { w.A(k).xAddParameter(p); } catch (...) { delete p; throw; }
+    return "ok";
+  }
+  if (o == "ap.addnull") { w.A(k).xAddParameter(nullptr); return "ok"; }
+  if (o == "ap.addall") { w.A(k).xAddParameters(w.L(toU(t[2]))); return "ok"; }
+  if (o == "ap.share") { w.A(k).xShareParameter(w.L(toU(t[2])).getParameter(name(t[3]))); return "ok"; }
+  if (o == "ap.shareall") { w.A(k).xShareParameters(w.L(toU(t[2]))); return "ok"; }
+  if (o == "ap.include") { w.A(k).xIncludeParameters(w.L(toU(t[2]))); return "ok"; }
+  if (o == "ap.deli") { w.A(k).xDeleteParameter(toU(t[2])); return "ok"; }
+  if (o == "ap.del") { std::string n = name(t[2]); w.A(k).xDeleteParameter(n); return "ok"; }
+  if (o == "ap.dels") { w.A(k).xDeleteParameters(namesFrom(t, 2)); return "ok"; }
+  if (o == "ap.reset") { w.A(k).xResetParameters(); return "ok"; }
+  if (o == "ap.size") {
+    const Parametrizable& pz = w.A(k);
+    if (pz.getNumberOfParameters() != pz.getParameters().size()) return "overloads-disagree";
+    return "nat " + std::to_string(pz.getNumberOfParameters());
+  }
+  if (o == "ap.names") { std::string s = "strs"; for (auto& n : w.A(k).getParameters().getParameterNames()) s += " " + showName(n); return s; }
+  if (o == "ap.has") { return std::string("bool ") + (w.A(k).hasParameter(name(t[2])) ? "1" : "0"); }
+  if (o == "ap.getv") { return "val " + quarters(w.A(k).getParameterValue(name(t[2]))); }
+  if (o == "ap.param") {
+    // parameter(name), getParameter(name), getParameter_(name), getParameterWithNamespace_(name) x2
+    TestAP& a = w.A(k); const TestAP& ca = a;
+    std::string n = name(t[2]);
+    int raised = 0; const Parameter* got[5] = {nullptr, nullptr, nullptr, nullptr, nullptr};
+    try { got[0] = &ca.parameter(n); } catch (ParameterNotFoundException&) { ++raised; }
+    try { got[1] = ca.getParameter(n).get(); } catch (ParameterNotFoundException&) { ++raised; }
+    try { got[2] = &a.xGetParameter(n); } catch (ParameterNotFoundException&) { ++raised; }
+    try { got[3] = &a.xGetParameterNs(n); } catch (ParameterNotFoundException&) { ++raised; }
+    try { got[4] = &ca.xGetParameterNsC(n); } catch (ParameterNotFoundException&) { ++raised; }
+    if (raised == 5) throw ParameterNotFoundException("ap.param", n);
+    if (raised != 0) return "overloads-disagree";
+    for (int i = 1; i < 5; ++i) if (got[i] != got[0]) return "overloads-disagree";
+    return "obj " + entry(w, ca.getParameter(n));
+  }
+  if (o == "ap.at") {
+    // getParameter_(index) const / non-const are range-checked; getParameter(i) is not
+    TestAP& a = w.A(k); const TestAP& ca = a;
+    size_t i = toU(t[2]);
+    int raised = 0; const Parameter* p1 = nullptr; const Parameter* p2 = nullptr;
+    try { p1 = &a.xGetParameter(i); } catch (IndexOutOfBoundsException&) { ++raised; }
+    try { p2 = &ca.xGetParameterC(i); } catch (IndexOutOfBoundsException&) { ++raised; }
+    if (raised == 2) { if (i < a.getNumberOfParameters()) return "overloads-disagree"; throw IndexOutOfBoundsException("ap.at", i, 0, 0); }
+    if (raised != 0 || p1 != p2 || i >= a.getNumberOfParameters()) return "overloads-disagree";
+    if (a.xGetParameterPtr(i).get() != p1 || ca.xGetParameterPtrC(i).get() != p1) return "overloads-disagree";
+    return "obj " + entry(w, a.xGetParameterPtr(i));
+  }
+  if (o == "ap.nons") { return "str " + showName(w.A(k).getParameterNameWithoutNamespace(name(t[2]))); }
   return "bad-op";
 }
 
